@@ -408,3 +408,20 @@ Proof.
                  (C07_merge_adds_any_state C07_ex.sc C07_ex2.m2 (Some C07_ex2.o2) _ _ H1' H2 H3 H4' H5' _))))))));
     intros kvs; discriminate.
 Qed.
+
+(* ================================================================================================== *)
+(* non-vacuity examples added after the reviewer's audit (Properties/C07_nv.v, 2026-10-01)         *)
+(* ================================================================================================== *)
+
+(* ==== non-vacuity instance obtained BY APPLYING the theorem above (added after review) ================== *)
+
+(* C07_merge_order: a nested target (dict with a list) and an [other] whose FIRST key is new and whose later keys clash:
+   the theorem gives the list of added keys; compared with the computed key list it is [d] *)
+Example C07_merge_order_nonvacuous :
+  exists added, map fst (merge_spec C07_ex.target C07_ex.other) = map fst C07_ex.target ++ added /\ added = [C07_ex.kd] /\
+    map fst C07_ex.other = [C07_ex.kd; C07_ex.ka; C07_ex.kc] /\ map fst C07_ex.target = [C07_ex.ka; C07_ex.kc].
+Proof.
+  destruct (C07_merge_order C07_ex.target C07_ex.other) as [added H]. exists added. split; [exact H|].
+  assert (E : map fst (merge_spec C07_ex.target C07_ex.other) = map fst C07_ex.target ++ [C07_ex.kd]) by (vm_compute; reflexivity).
+  rewrite E in H. split; [symmetry; exact (app_inv_head _ _ _ H) | split; vm_compute; reflexivity].
+Qed.
